@@ -44,7 +44,14 @@ struct QueueModel {
       case PF_NEVER: return false;
       case PF_FULL: return (int64_t)s.size() >= capacity;
       case PF_FULL_INFLIGHT: return (int64_t)s.size() + (int64_t)op.n_overlap >= capacity;
-      case PF_KFIFO: return (int64_t)s.size() >= kfifo_min_full && !s.empty();
+      case PF_KFIFO: {
+        // "at least (segments-1)*k+1 values were stored at some instant of the call": a concurrent push stores its value in a
+        // slot before it knows whether the insertion counts (committed()) and may withdraw it again - such a value was
+        // physically stored at that instant although its push is rejected or linearized later. Weakest reading of the
+        // property: every push in flight concurrently may account for one stored value.
+        int64_t stored = (int64_t)s.size() + (int64_t)op.n_overlap_same;
+        return stored >= kfifo_min_full && stored > 0;
+      }
       }
       return false;
     }
